@@ -227,6 +227,7 @@ pub struct Outcome {
     pub parks: u32,
     pub unpark_wakes: u32,
     pub spurious_unparks: u32,
+    pub moved_unpin: u32,
     pub final_time: u64,
     pub panics: Vec<(u8, String)>,
     pub livelock: Option<u8>,
@@ -269,6 +270,7 @@ struct Inner {
     wakers: Vec<WakerSt>,
     unpark_wakes: u32,
     spurious_unparks: u32,
+    moved_unpin: u32,
     panics: Vec<(u8, String)>,
     livelock: Option<u8>,
     cross_checked: u32,
@@ -345,6 +347,7 @@ impl Inner {
             wakers: Vec::new(),
             unpark_wakes: 0,
             spurious_unparks: 0,
+            moved_unpin: 0,
             panics: Vec::new(),
             livelock: None,
             cross_checked: 0,
@@ -1157,6 +1160,30 @@ pub fn fresh(addr: usize, len: usize) {
     }
 }
 
+/// The harness moved an object (legal for `Unpin` types): every published range that lives
+/// inside the old location is dead from now on.
+pub fn retire_within(addr: usize, len: usize) {
+    let mut g = lock(rt());
+    let seq = alloc_seq();
+    let mut moved = Vec::new();
+    g.live.retain(|r| {
+        if r.start >= addr && r.start < addr + len {
+            let mut r2 = *r;
+            r2.seq = seq;
+            moved.push(r2);
+            false
+        } else {
+            true
+        }
+    });
+    g.retired.extend(moved);
+}
+
+/// Classification: the harness moved an `Unpin` future / stream between two polls.
+pub fn count_moved() {
+    lock(rt()).moved_unpin += 1;
+}
+
 /// Snapshot of thread states (for the epilogue).
 pub fn thread_states() -> Vec<St> {
     lock(rt()).th.iter().map(|t| t.st).collect()
@@ -1348,6 +1375,7 @@ pub fn run(cfg: Config, bodies: Vec<Job>) -> Outcome {
         parks: g.th.iter().map(|t| t.parks).sum(),
         unpark_wakes: g.unpark_wakes,
         spurious_unparks: g.spurious_unparks,
+        moved_unpin: g.moved_unpin,
         final_time: g.now,
         panics: std::mem::take(&mut g.panics),
         livelock: g.livelock,
